@@ -51,6 +51,9 @@ type AwsOracle struct {
 	// ErrCode: "" = injected failures are plain errors; otherwise they are awserr.Error values with this code (what the AWS SDK
 	// returns: ValidationError, Throttling, RequestLimitExceeded, ...). What escalator does with a failed call must not depend on it.
 	ErrCode string `json:"err_code,omitempty"`
+	// StatusFail: polls (1-based) of DescribeInstanceStatus that fail outright; a failed poll is a poll at which the instances are
+	// not (known to be) ready — generators keep them before ReadyAt so that the outcome of the wait is the same
+	StatusFail []int `json:"status_fail,omitempty"`
 }
 
 type AwsCall struct {
@@ -380,6 +383,11 @@ func (m simEC2) DescribeInstanceStatusPages(in *ec2.DescribeInstanceStatusInput,
 	polls := s.nPolls[gname]
 	o := s.orc(gname)
 	ready := o.ReadyAt > 0 && polls >= o.ReadyAt
+	if hasInt(o.StatusFail, polls) {
+		err := s.failure(gname)
+		s.mu.Unlock()
+		return err
+	}
 	s.mu.Unlock()
 	statuses := []*ec2.InstanceStatus{}
 	for i, id := range in.InstanceIds {
